@@ -51,12 +51,34 @@ impl ExpirationQueue {
     { unimplemented!() }
 }
 pub struct Policy { pub vx_opaque: u8 }
-pub struct BitFieldQueue { pub amt: ExpAmt }
+/// ADDED (the original has no model of this queue): bitfield_queue.rs BitFieldQueue = AMT[quantised epoch] -> BitField, viewed as the finite set of
+/// (quantised epoch, value) pairs it holds; content addressed like the other AMTs (`bfq_decode(root)`); `bfq_quant` stands for QuantSpec::quantize_up.
+#[verifier::external_body]
+pub struct BfqAmt { inner: Box<u8> }
+pub uninterp spec fn bfq_decode(root: Cid) -> Set<(ChainEpoch, u64)>;
+pub uninterp spec fn bfq_quant(q: QuantSpec, e: ChainEpoch) -> ChainEpoch;
+impl BfqAmt {
+    pub uninterp spec fn view(&self) -> Set<(ChainEpoch, u64)>;
+    #[verifier::external_body]
+    pub fn flush(&mut self) -> (r: Result<Cid, AnyhowError>)
+        ensures final(self).view() == old(self).view(), r.is_ok() ==> bfq_decode(r->Ok_0) == old(self).view()
+    { unimplemented!() }
+}
+pub struct BitFieldQueue { pub amt: BfqAmt, pub quant: QuantSpec }
 impl BitFieldQueue {
+    /// `Ok(Self { amt: Array::load(root, store)?, quant })`
     #[verifier::external_body]
-    pub fn new<BS: Blockstore>(store: &BS, root: &Cid, quant: QuantSpec) -> (r: Result<BitFieldQueue, AnyhowError>) { unimplemented!() }
+    pub fn new<BS: Blockstore>(store: &BS, root: &Cid, quant: QuantSpec) -> (r: Result<BitFieldQueue, AnyhowError>)
+        ensures r.is_ok() ==> r->Ok_0.amt.view() == bfq_decode(*root) && r->Ok_0.quant == quant
+    { unimplemented!() }
+    /// adds `values` to the entry of the quantised epoch; nothing else moves (bitfield_queue.rs: get / `|` / set on one key)
     #[verifier::external_body]
-    pub fn add_to_queue(&mut self, raw_epoch: ChainEpoch, values: &BitField) -> (r: anyhow::Result<()>) { unimplemented!() }
+    pub fn add_to_queue(&mut self, raw_epoch: ChainEpoch, values: &BitField) -> (r: anyhow::Result<()>)
+        ensures
+            final(self).quant == old(self).quant,
+            r.is_ok() ==> forall|e: ChainEpoch, v: u64| #![trigger final(self).amt.view().contains((e, v))]
+                final(self).amt.view().contains((e, v)) <==> old(self).amt.view().contains((e, v)) || (e == bfq_quant(old(self).quant, raw_epoch) && values@.contains(v)),
+    { unimplemented!() }
 }
 #[verifier::external_body]
 pub fn select_sectors(sectors: &[SectorOnChainInfo], field: &BitField) -> (r: anyhow::Result<Vec<SectorOnChainInfo>>) { unimplemented!() }
